@@ -1,7 +1,937 @@
-//! C15 — not built yet.
+//! C15 — templating keeps an exact source-to-rendered map.
+//!
+//! For generated (source, placeholder configuration) pairs and for synthetic slice lists:
+//!  * group `process`: real `PlaceholderTemplater::process` (templated string, slices, raw
+//!    slices, Err, panic) vs the Gallina `process` run on the capture list of the *same*
+//!    regex (`H_caps` is monitored on that list);
+//!  * groups `lex` / `lexsyn`: position markers produced by the real
+//!    `Lexer::lex(StringOrTemplate::Template(tf))` vs the Gallina `lex_segments` on the slice
+//!    list and the lexed elements (obtained by lexing the rendered string on its own);
+//!  * group `lit`: `TemplatedFile::is_source_slice_literal` vs the model;
+//!  * direct observations of the property itself: rendered = substitution, slices tile both
+//!    texts, literal slices cover identical text, every token's source range = `map_spec`,
+//!    tokens refine the lexed elements (only whitespace is split), no panic.
+use std::str::FromStr;
+
+use serde_json::{Value as J, json};
+use sqruff_lib::core::config::{FluffConfig, Value};
+use sqruff_lib::templaters::Templater;
+use sqruff_lib::templaters::placeholder::{PlaceholderTemplater, get_known_styles};
+use sqruff_lib_core::dialects::base::Dialect;
+use sqruff_lib_core::dialects::init::DialectKind;
+use sqruff_lib_core::dialects::syntax::SyntaxKind;
+use sqruff_lib_core::parser::lexer::StringOrTemplate;
+use sqruff_lib_core::parser::segments::base::Tables;
+use sqruff_lib_core::templaters::base::{RawFileSlice, TemplatedFile, TemplatedFileSlice};
+
 use crate::common::*;
 
-pub fn main(_args: &Args) {
-    eprintln!("c15: not built yet");
-    std::process::exit(2);
+// ------------------------------------------------------------------ items
+#[derive(Clone, Debug)]
+enum Val {
+    S(String),
+    I(i32),
+    B(bool),
+    F,    // a float: not a valid replacement
+    None, // Value::None
+}
+impl Val {
+    fn to_value(&self) -> Value {
+        match self {
+            Val::S(s) => Value::String(s.as_str().into()),
+            Val::I(i) => Value::Int(*i),
+            Val::B(b) => Value::Bool(*b),
+            Val::F => Value::Float(1.5),
+            Val::None => Value::None,
+        }
+    }
+    fn to_json(&self) -> J {
+        match self {
+            Val::S(s) => json!({"s":s}),
+            Val::I(i) => json!({"i":i}),
+            Val::B(b) => json!({"b":b}),
+            Val::F => json!({"f":1.5}),
+            Val::None => json!({"none":true}),
+        }
+    }
+    fn from_json(v: &J) -> Val {
+        if let Some(s) = v.get("s") {
+            Val::S(s.as_str().unwrap_or("").to_string())
+        } else if let Some(i) = v.get("i") {
+            Val::I(i.as_i64().unwrap_or(0) as i32)
+        } else if let Some(b) = v.get("b") {
+            Val::B(b.as_bool().unwrap_or(false))
+        } else if v.get("f").is_some() {
+            Val::F
+        } else {
+            Val::None
+        }
+    }
+}
+
+/// slice: (type code, s0, s1, t0, t1); type codes: 0 literal, 1 templated, 2 block_start, 3 anything else
+type Sl = (u8, usize, usize, usize, usize);
+
+#[derive(Clone, Debug)]
+enum Item {
+    Placeholder { cls: String, dialect: String, style: String, regex: Option<String>, src: String, vals: Vec<(String, Val)> },
+    /// parts: (type name, source text, templated text)
+    Synthetic { cls: String, dialect: String, parts: Vec<(String, String, String)> },
+}
+impl Item {
+    fn to_json(&self) -> J {
+        match self {
+            Item::Placeholder { cls, dialect, style, regex, src, vals } => json!({
+                "kind":"placeholder","cls":cls,"dialect":dialect,"style":style,"regex":regex,"src":src,
+                "vals": vals.iter().map(|(k,v)| json!([k, v.to_json()])).collect::<Vec<_>>() }),
+            Item::Synthetic { cls, dialect, parts } => json!({
+                "kind":"synthetic","cls":cls,"dialect":dialect,
+                "parts": parts.iter().map(|(a,b,c)| json!([a,b,c])).collect::<Vec<_>>() }),
+        }
+    }
+    fn from_json(v: &J) -> Item {
+        let s = |k: &str| v[k].as_str().unwrap_or("").to_string();
+        if v["kind"] == "synthetic" {
+            Item::Synthetic {
+                cls: "replay".into(),
+                dialect: s("dialect"),
+                parts: v["parts"].as_array().map(|a| a.iter().map(|p| (p[0].as_str().unwrap_or("").to_string(), p[1].as_str().unwrap_or("").to_string(), p[2].as_str().unwrap_or("").to_string())).collect()).unwrap_or_default(),
+            }
+        } else {
+            Item::Placeholder {
+                cls: "replay".into(),
+                dialect: s("dialect"),
+                style: s("style"),
+                regex: v["regex"].as_str().map(|x| x.to_string()),
+                src: s("src"),
+                vals: v["vals"].as_array().map(|a| a.iter().map(|p| (p[0].as_str().unwrap_or("").to_string(), Val::from_json(&p[1]))).collect()).unwrap_or_default(),
+            }
+        }
+    }
+}
+
+fn ty_code(t: &str) -> u8 {
+    match t {
+        "literal" => 0,
+        "templated" => 1,
+        "block_start" => 2,
+        _ => 3,
+    }
+}
+fn g_ty(c: u8) -> &'static str {
+    match c {
+        0 => "SLit",
+        1 => "STempl",
+        2 => "SBlockStart",
+        _ => "SOther",
+    }
+}
+fn g_slice(s: &Sl) -> String {
+    format!("mk_ts {} {} {} {} {}", g_ty(s.0), s.1, s.2, s.3, s.4)
+}
+fn hash_str(s: &str) -> u64 {
+    let mut h: u64 = 0xcbf29ce484222325;
+    for b in s.as_bytes() {
+        h ^= *b as u64;
+        h = h.wrapping_mul(0x100000001b3);
+    }
+    h
+}
+fn parse_like<T: FromStr>(_witness: &T, s: &str) -> Option<T> {
+    T::from_str(s).ok()
+}
+
+// ------------------------------------------------------------------ the specification, in Rust, for direct observation
+fn map_spec(sl: &[Sl], a: usize, b: usize) -> Option<(usize, usize)> {
+    let sa = sl.iter().find(|s| s.3 <= a && a < s.4)?;
+    let sb = sl.iter().find(|s| s.3 < b && b <= s.4)?;
+    let start = if sa.0 == 0 { sa.1 + (a - sa.3) } else { sa.1 };
+    let end = if sb.0 == 0 { sb.1 + (b - sb.3) } else { sb.2 };
+    Some((start, end))
+}
+
+/// `--legacy`: the harness is built against a tree with fix 7ed96a0 reverted; only the lex tie is
+/// emitted, into group `lexlegacy` (checked against `iter_segments_legacy`), nothing is judged.
+static LEGACY: std::sync::atomic::AtomicBool = std::sync::atomic::AtomicBool::new(false);
+fn legacy() -> bool {
+    LEGACY.load(std::sync::atomic::Ordering::Relaxed)
+}
+
+// ------------------------------------------------------------------ per-thread state
+#[derive(Default)]
+struct St {}
+static DIALECT_MAP: std::sync::OnceLock<std::collections::HashMap<String, Dialect>> = std::sync::OnceLock::new();
+impl St {
+    /// dialects are built once and shared (building one costs a few hundred ms)
+    fn dialect(&mut self, name: &str) -> &'static Dialect {
+        let m = DIALECT_MAP.get_or_init(|| {
+            let names: Vec<&str> = DIALECTS.to_vec();
+            let built: Vec<(String, Dialect)> = std::thread::scope(|sc| {
+                let hs: Vec<_> = names
+                    .iter()
+                    .map(|n| {
+                        sc.spawn(move || {
+                            let kind = DialectKind::from_str(n).unwrap_or(DialectKind::Ansi);
+                            (n.to_string(), sqruff_lib_dialects::kind_to_dialect(&kind).expect("dialect"))
+                        })
+                    })
+                    .collect();
+                hs.into_iter().map(|h| h.join().unwrap()).collect()
+            });
+            built.into_iter().collect()
+        });
+        m.get(name).unwrap_or_else(|| &m["ansi"])
+    }
+}
+
+fn slices_of(tf: &TemplatedFile) -> Vec<Sl> {
+    tf.sliced_file
+        .iter()
+        .map(|s| (ty_code(&s.slice_type), s.source_slice.start, s.source_slice.end, s.templated_slice.start, s.templated_slice.end))
+        .collect()
+}
+
+/// Lex the rendered string on its own: the lexed elements (templated range, is-whitespace).
+fn elements(d: &Dialect, tpl: &str) -> Result<Vec<(usize, usize, bool)>, String> {
+    catch(|| {
+        let tables = Tables::default();
+        let (segs, _) = d.lexer().lex(&tables, StringOrTemplate::String(tpl)).unwrap();
+        let mut out = vec![];
+        for s in &segs {
+            if s.is_type(SyntaxKind::EndOfFile) {
+                continue;
+            }
+            let pm = s.get_position_marker().unwrap();
+            out.push((pm.templated_slice.start, pm.templated_slice.end, s.is_type(SyntaxKind::Whitespace)));
+        }
+        out
+    })
+}
+
+/// (s0, s1, t0, t1, raw) of every token of the real templated lex, end-of-file included.
+fn real_lex(d: &Dialect, tf: &TemplatedFile) -> Result<Vec<(usize, usize, usize, usize, String)>, String> {
+    catch(|| {
+        let tables = Tables::default();
+        let (segs, _) = d.lexer().lex(&tables, StringOrTemplate::Template(tf.clone())).unwrap();
+        segs.iter()
+            .map(|s| {
+                let pm = s.get_position_marker().unwrap();
+                (pm.source_slice.start, pm.source_slice.end, pm.templated_slice.start, pm.templated_slice.end, s.raw().to_string())
+            })
+            .collect()
+    })
+}
+
+/// Everything that happens once a templated file exists: lex tie, direct observation of the
+/// token map, literal-ness tie.
+#[allow(clippy::too_many_arguments)]
+fn lex_part(st: &mut St, group: &str, cls: &str, dialect: &str, tf: &TemplatedFile, src: &str, tpl: &str, input: &J, rng: &mut Rng, out: &mut Buf) {
+    let sl = slices_of(tf);
+    let d = st.dialect(dialect);
+    let els = match elements(d, tpl) {
+        Ok(e) => e,
+        Err(_) => {
+            out.count("plain_lex_panicked_skipped", 1);
+            return;
+        }
+    };
+    let covered = els.last().map(|e| e.1).unwrap_or(0);
+    // hypotheses of C15_map, monitored on real data
+    {
+        let mut pos = 0;
+        let mut ok = true;
+        for e in &els {
+            if e.0 != pos || e.1 <= e.0 {
+                ok = false;
+            }
+            pos = e.1;
+        }
+        out.hyp("wf_elems(lexed elements non-empty, contiguous from 0, inside the rendered text)", "blocking", ok && pos <= tpl.len(), json!({"input":input,"elements":els}));
+        let mut pt = 0;
+        let mut okc = true;
+        for s in &sl {
+            if s.3 != pt || s.4 < s.3 || !(s.3 == s.4 || s.0 <= 1) {
+                okc = false;
+            }
+            pt = s.4;
+        }
+        if group == "lex" {
+            out.hyp("wf_slices(process output: templated ranges contiguous from 0, literal/templated)", "blocking", okc && pt == tpl.len(), json!({"input":input,"slices":sl}));
+        } else if okc {
+            out.count("synthetic_lists_satisfying_wf_slices", 1);
+        }
+    }
+    if covered != tpl.len() {
+        out.count("lexer_dropped_tail(C01)", 1);
+    }
+    let real = real_lex(d, tf);
+    let args = g_tuple(&[g_list(sl.iter().map(g_slice)), g_list(els.iter().map(|e| format!("mk_el {} {} {}", e.0, e.1, g_bool(e.2))))]);
+    let exp = match &real {
+        Ok(segs) => format!("(Some {})", g_list(segs.iter().map(|g| format!("mk_seg {} {} {} {} 0 {}", g.0, g.1, g.2, g.3, g.4.len())))),
+        Err(_) => "None".to_string(),
+    };
+    // non-trivial: some element overlaps more than one slice of non-zero templated length
+    let straddles = els.iter().filter(|e| sl.iter().filter(|s| s.3 < s.4 && s.3 < e.1 && e.0 < s.4).count() > 1).count();
+    let ws_straddles = els.iter().filter(|e| e.2 && sl.iter().filter(|s| s.3 < s.4 && s.3 < e.1 && e.0 < s.4).count() > 1).count();
+    let shifted = sl.iter().any(|s| s.1 != s.3);
+    out.count("elements", els.len());
+    out.count("elements_straddling_a_border", straddles);
+    out.count("whitespace_elements_straddling_a_border", ws_straddles);
+    if shifted {
+        out.count("files_with_shifted_offsets", 1);
+    }
+    let sample = json!({"input":input,"slices":sl,"elements":els,
+        "real": match &real { Ok(s) => json!(s.iter().map(|g| json!([g.0,g.1,g.2,g.3])).collect::<Vec<_>>()), Err(m) => json!({"panic":trunc(m,200)}) }});
+    if legacy() {
+        out.case("lexlegacy", cls, straddles > 0, args, exp, sample);
+        if real.is_err() {
+            out.count("legacy_panics", 1);
+        }
+        return;
+    }
+    out.case(group, cls, straddles > 0, args, exp, sample);
+
+    // ---- direct observation of the property on the implementation
+    let key = format!("c15-lex-{:016x}", hash_str(&input.to_string()));
+    let wf = sl.iter().all(|s| s.3 == s.4 || s.0 <= 1);
+    match &real {
+        Err(msg) => {
+            if wf {
+                out.direct(cls, false, &key, &format!("lexing the templated file panicked: {}", trunc(msg, 200)), input.clone());
+            } else {
+                out.count("malformed_slice_list_panics(expected)", 1);
+            }
+        }
+        Ok(segs) => {
+            let toks = &segs[..segs.len().saturating_sub(1)];
+            let mut bad: Option<String> = None;
+            // (1) each token: text = text of its templated range, source range = map_spec, inside the source
+            for g in toks {
+                if tpl.get(g.2..g.3) != Some(g.4.as_str()) {
+                    bad = Some(format!("token raw {:?} is not the rendered text at {}..{}", g.4, g.2, g.3));
+                    break;
+                }
+                let spec = map_spec(&sl, g.2, g.3);
+                if spec != Some((g.0, g.1)) {
+                    bad = Some(format!("token {:?} at templated {}..{} maps to source {}..{}, specification says {:?}", g.4, g.2, g.3, g.0, g.1, spec));
+                    break;
+                }
+                if !(g.0 <= g.1 && g.1 <= src.len()) {
+                    bad = Some(format!("token {:?} source range {}..{} not inside the source (len {})", g.4, g.0, g.1, src.len()));
+                    break;
+                }
+            }
+            // (2) tokens refine the elements: contiguous, only whitespace is split, cuts at literal slice ends
+            if bad.is_none() {
+                let mut i = 0;
+                for e in &els {
+                    let mut pos = e.0;
+                    let mut n = 0;
+                    while pos < e.1 {
+                        match toks.get(i) {
+                            Some(g) if g.2 == pos && g.3 <= e.1 && g.3 > pos => {
+                                if g.3 < e.1 && !sl.iter().any(|s| s.0 == 0 && s.4 == g.3 && s.3 <= pos) {
+                                    bad = Some(format!("element {}..{} cut at {} which is not the end of a literal slice containing the piece", e.0, e.1, g.3));
+                                }
+                                pos = g.3;
+                                i += 1;
+                                n += 1;
+                            }
+                            other => {
+                                bad = Some(format!("element {}..{} not covered by tokens at {} (next token {:?})", e.0, e.1, pos, other.map(|g| (g.2, g.3))));
+                                break;
+                            }
+                        }
+                        if bad.is_some() {
+                            break;
+                        }
+                    }
+                    if bad.is_none() && n > 1 && !e.2 {
+                        bad = Some(format!("non-whitespace element {}..{} split into {} tokens", e.0, e.1, n));
+                    }
+                    if bad.is_some() {
+                        break;
+                    }
+                }
+                if bad.is_none() && i != toks.len() {
+                    bad = Some("more tokens than elements".into());
+                }
+            }
+            // (3) end of file sits at the end of the last token
+            if bad.is_none() {
+                let eof = segs.last().unwrap();
+                let want = toks.last().map(|g| (g.1, g.1, g.3, g.3)).unwrap_or((0, 0, 0, 0));
+                if (eof.0, eof.1, eof.2, eof.3) != want {
+                    bad = Some(format!("end-of-file marker {:?} but last token ends at {:?}", (eof.0, eof.1, eof.2, eof.3), want));
+                }
+            }
+            match bad {
+                Some(msg) if wf => out.direct(cls, false, &key, &msg, input.clone()),
+                Some(_) => out.count("malformed_slice_list_mismaps(expected)", 1),
+                None => out.direct(cls, true, "", "", J::Null),
+            }
+        }
+    }
+
+    // ---- literal-ness of random source ranges
+    let raws = tf.verif_raw_sliced();
+    if raws.iter().all(|r| r.0.is_ascii()) || true {
+        for _ in 0..(if rng.chance(1, 3) { 1 } else { 0 }) {
+            let a = rng.below(src.len() + 1);
+            let b = (a + rng.below(8)).min(src.len());
+            let got = tf.is_source_slice_literal(&(a..b));
+            let args = g_tuple(&[
+                g_list(raws.iter().map(|r| format!("mk_rs {} {} {}", g_str(&r.0), g_ty(ty_code(&r.1)), r.2))),
+                g_n(a),
+                g_n(b),
+            ]);
+            out.case("lit", cls, raws.len() > 1, args, g_bool(got), json!({"input":input,"range":[a,b],"got":got}));
+        }
+    }
+}
+
+fn run_placeholder(st: &mut St, cls: &str, dialect: &str, style: &str, regex: &Option<String>, src: &str, vals: &[(String, Val)], item_json: &J, rng: &mut Rng, out: &mut Buf) {
+    out.count("placeholder_files", 1);
+    // configuration
+    let ini = format!(
+        "[sqruff]\ndialect = {}\ntemplater = placeholder\n\n[sqruff:templater:placeholder]\n{}\n",
+        dialect,
+        match regex {
+            Some(r) => format!("param_regex = {}", r),
+            None => format!("param_style = {}", style),
+        }
+    );
+    let cfg = catch(|| {
+        let mut cfg = FluffConfig::from_source(&ini, None);
+        {
+            let m = cfg.raw.get_mut("templater").unwrap().as_map_mut().unwrap().get_mut("placeholder").unwrap().as_map_mut().unwrap();
+            for (k, v) in vals {
+                m.insert(k.clone(), v.to_value());
+            }
+        }
+        cfg
+    });
+    let Ok(cfg) = cfg else {
+        out.count("config_failed_skipped", 1);
+        return;
+    };
+    // the regex the templater will use, and its captures on this source
+    let styles = get_known_styles();
+    let re = match regex {
+        Some(r) => match parse_like(styles.values().next().unwrap(), r) {
+            Some(x) => x,
+            None => {
+                out.count("bad_custom_regex_skipped", 1);
+                return;
+            }
+        },
+        None => match styles.get(style) {
+            Some(r) => r.clone(),
+            None => return,
+        },
+    };
+    let mut caps: Vec<(usize, usize, Option<String>)> = vec![];
+    for c in re.captures_iter(src) {
+        let Ok(c) = c else {
+            out.count("regex_error_skipped", 1);
+            return;
+        };
+        let m = c.get(0).unwrap();
+        caps.push((m.start(), m.end(), c.name("param_name").map(|n| n.as_str().to_string())));
+    }
+    // H_caps: spans sorted, disjoint, within the source
+    let mut ok = true;
+    let mut last = 0usize;
+    for c in &caps {
+        if !(last <= c.0 && c.0 <= c.1 && c.1 <= src.len()) {
+            ok = false;
+        }
+        last = c.1;
+    }
+    out.hyp("H_caps(captures sorted, disjoint, in range)", "blocking", ok, json!({"input":item_json,"caps":caps}));
+    // the configuration map the templater looks names up in
+    let mut map: Vec<(String, String)> = vec![];
+    if let Some(m) = cfg.get("placeholder", "templater").as_map() {
+        for (k, v) in m {
+            let gv = match v {
+                Value::String(s) => format!("VStr {}", g_str(s)),
+                Value::Int(i) => format!("VInt {} {}", g_bool(*i < 0), (*i as i64).unsigned_abs()),
+                Value::Bool(b) => format!("VBool {}", g_bool(*b)),
+                _ => "VOther".to_string(),
+            };
+            map.push((k.clone(), gv));
+        }
+    }
+    map.sort();
+    let args = g_tuple(&[
+        g_str(src),
+        g_list(map.iter().map(|(k, v)| format!("({},{})", g_str(k), v))),
+        g_list(caps.iter().map(|c| format!("mk_cap {} {} {}", c.0, c.1, g_opt(c.2.as_ref().map(|n| g_str(n)))))),
+    ]);
+    // the real templater
+    let r = catch(|| PlaceholderTemplater.process(src, "f.sql", &cfg, &None));
+    let exp = match &r {
+        Ok(Ok(tf)) => {
+            let sl = slices_of(tf);
+            let raws = tf.verif_raw_sliced();
+            format!(
+                "(ROk (mk_tf {} {} {}))",
+                g_str(tf.templated()),
+                g_list(sl.iter().map(g_slice)),
+                g_list(raws.iter().map(|r| format!("mk_rs {} {} {}", g_str(&r.0), g_ty(ty_code(&r.1)), r.2)))
+            )
+        }
+        Ok(Err(_)) => "RErr".to_string(),
+        Err(_) => "RPanic".to_string(),
+    };
+    let sample = json!({"input":item_json,"caps":caps,
+        "result": match &r { Ok(Ok(tf)) => json!({"templated":tf.templated(),"slices":slices_of(tf)}), Ok(Err(e)) => json!({"err":e.value}), Err(m) => json!({"panic":trunc(m,200)}) }});
+    let changing = matches!(&r, Ok(Ok(tf)) if tf.templated() != src);
+    if !legacy() {
+        out.case("process", cls, changing, args, exp, sample);
+    }
+    if caps.is_empty() {
+        out.count("files_without_placeholder", 1);
+    }
+    out.count("placeholders", caps.len());
+
+    let key = format!("c15-process-{:016x}", hash_str(&item_json.to_string()));
+    let tf = match r {
+        Err(msg) => {
+            out.direct(cls, false, &key, &format!("process panicked: {}", trunc(&msg, 200)), item_json.clone());
+            return;
+        }
+        Ok(Err(_)) => {
+            // only allowed for a replacement value that is not a string/int/bool
+            let invalid = vals.iter().any(|(_, v)| matches!(v, Val::F | Val::None));
+            out.direct(cls, invalid, &key, "process returned Err although every configured value is a string, int or bool", item_json.clone());
+            out.count("process_err", 1);
+            return;
+        }
+        Ok(Ok(tf)) => tf,
+    };
+    // ---- direct: rendered = substitution; slices tile both texts; literal slices identical
+    let tpl = tf.templated().to_string();
+    let mut bad: Option<String> = None;
+    {
+        let lookup = |name: &str| -> String {
+            match map.iter().find(|(k, _)| k == name) {
+                None => name.to_string(),
+                Some((k, _)) => match cfg.get("placeholder", "templater").as_map().unwrap().get(k).unwrap() {
+                    Value::String(s) => s.to_string(),
+                    Value::Int(i) => i.to_string(),
+                    Value::Bool(b) => b.to_string(),
+                    _ => String::new(),
+                },
+            }
+        };
+        let mut want = String::new();
+        let mut pos = 0;
+        let mut counter = 1;
+        let mut repls = vec![];
+        for c in &caps {
+            want.push_str(&src[pos..c.0]);
+            let name = match &c.2 {
+                Some(n) => n.clone(),
+                None => {
+                    counter += 1;
+                    (counter - 1).to_string()
+                }
+            };
+            let r = lookup(&name);
+            want.push_str(&r);
+            repls.push(r);
+            pos = c.1;
+        }
+        want.push_str(&src[pos..]);
+        if want != tpl {
+            bad = Some(format!("rendered text {:?} is not the substitution {:?}", trunc(&tpl, 120), trunc(&want, 120)));
+        }
+        let sl = slices_of(&tf);
+        let (mut ps, mut pt) = (0usize, 0usize);
+        let mut k = 0;
+        for s in &sl {
+            if bad.is_some() {
+                break;
+            }
+            if s.1 != ps || s.3 != pt || s.2 < s.1 || s.4 < s.3 {
+                bad = Some(format!("slice {:?} does not continue at source {} / templated {}", s, ps, pt));
+                break;
+            }
+            ps = s.2;
+            pt = s.4;
+            match s.0 {
+                0 => {
+                    if src.get(s.1..s.2) != tpl.get(s.3..s.4) || src.get(s.1..s.2).is_none() {
+                        bad = Some(format!("literal slice {:?} covers different text", s));
+                    }
+                }
+                1 => {
+                    let c = caps.get(k);
+                    if c.map(|c| (c.0, c.1)) != Some((s.1, s.2)) || tpl.get(s.3..s.4) != repls.get(k).map(|x| x.as_str()) {
+                        bad = Some(format!("templated slice {:?} is not placeholder #{} / its replacement", s, k));
+                    }
+                    k += 1;
+                }
+                _ => bad = Some(format!("unexpected slice type in {:?}", s)),
+            }
+        }
+        if bad.is_none() && (ps != src.len() || pt != tpl.len() || k != caps.len()) {
+            bad = Some(format!("slices end at source {} / templated {} (lengths {} / {}), {} of {} placeholders", ps, pt, src.len(), tpl.len(), k, caps.len()));
+        }
+    }
+    match bad {
+        Some(msg) => out.direct(cls, false, &key, &msg, item_json.clone()),
+        None => out.direct(cls, true, "", "", J::Null),
+    }
+    lex_part(st, "lex", cls, dialect, &tf, src, &tpl, item_json, rng, out);
+}
+
+fn run_synthetic(st: &mut St, cls: &str, dialect: &str, parts: &[(String, String, String)], item_json: &J, rng: &mut Rng, out: &mut Buf) {
+    out.count("synthetic_files", 1);
+    let mut src = String::new();
+    let mut tpl = String::new();
+    let mut slices = vec![];
+    let mut raws = vec![];
+    for (ty, s, t) in parts {
+        slices.push(TemplatedFileSlice::new(ty, src.len()..src.len() + s.len(), tpl.len()..tpl.len() + t.len()));
+        raws.push(RawFileSlice::new(s.clone(), ty.clone(), src.len(), None, None));
+        src.push_str(s);
+        tpl.push_str(t);
+    }
+    let tf = catch(|| TemplatedFile::new(src.clone(), "syn.sql".to_string(), Some(tpl.clone()), Some(slices), Some(raws)));
+    let tf = match tf {
+        Ok(Ok(tf)) => tf,
+        _ => {
+            out.count("synthetic_rejected_by_constructor", 1);
+            return;
+        }
+    };
+    lex_part(st, "lexsyn", cls, dialect, &tf, &src, &tpl, item_json, rng, out);
+}
+
+fn run_one(st: &mut St, it: &(Item, u64), out: &mut Buf) {
+    let j = it.0.to_json();
+    let mut rng = Rng::new(it.1);
+    match &it.0 {
+        Item::Placeholder { cls, dialect, style, regex, src, vals } => run_placeholder(st, cls, dialect, style, regex, src, vals, &j, &mut rng, out),
+        Item::Synthetic { cls, dialect, parts } => run_synthetic(st, cls, dialect, parts, &j, &mut rng, out),
+    }
+}
+
+// ------------------------------------------------------------------ generators
+const BASES: &[&str] = &[
+    "SELECT a, b FROM tab WHERE c = 1\n",
+    "SELECT user_mail, city_id\nFROM users_data\nWHERE userid = 42 AND date > '2020-01-01'\n",
+    "select  a ,b  from t\nwhere  x  in (1, 2, 3)\n",
+    "SELECT 'some text' AS s, \"Quoted\" AS q -- trailing comment\nFROM t1 JOIN t2 ON t1.id = t2.id\n",
+    "INSERT INTO t (a, b) VALUES (1, 'x'), (2, 'y');\n",
+    "/* block\n   comment */ SELECT COUNT(*) FROM schema1.tbl1 GROUP BY 1 ORDER BY 1 DESC LIMIT 10",
+    "UPDATE t SET a = a + 1, b = 'z'   WHERE id >= 10;\n\nDELETE FROM t WHERE id < 3;\n",
+    "SELECT\n    CASE WHEN a > 0 THEN 'p' ELSE 'n' END AS sign,\n    SUM(v) OVER (PARTITION BY g)\nFROM tt\n",
+    "USE db1.schema_name;",
+    "",
+    "SELECT 1",
+    "  \n\t SELECT a::int, b || 'c' FROM t;   ",
+];
+const NAMES: &[&str] = &["x", "y", "user_id", "n1", "param_style", "a_b"];
+
+/// Text of placeholder number `k` (1-based) in a style; returns (text, key under which its value is configured).
+fn placeholder(rng: &mut Rng, style: &str, k: usize) -> (String, String) {
+    let name = NAMES[rng.below(NAMES.len())].to_string();
+    let num = format!("{}", rng.range(1, 3));
+    match style {
+        "colon" | "colon_nospaces" => (format!(":{}", name), name),
+        "numeric_colon" => (format!(":{}", num), num),
+        "pyformat" => (format!("%({})s", name), name),
+        "dollar" => {
+            if rng.chance(1, 2) {
+                (format!("${}", name), name)
+            } else {
+                (format!("${{{}}}", name), name)
+            }
+        }
+        "flyway_var" => (format!("${{flyway:{}}}", name), format!("flyway:{}", name)),
+        "question_mark" => ("?".to_string(), format!("{}", k)),
+        "numeric_dollar" => {
+            if rng.chance(1, 2) {
+                (format!("${}", num), num)
+            } else {
+                (format!("${{{}}}", num), num)
+            }
+        }
+        "percent" => ("%s".to_string(), format!("{}", k)),
+        "ampersand" => {
+            if rng.chance(1, 2) {
+                (format!("&{}", name), name)
+            } else {
+                (format!("&{{{}}}", name), name)
+            }
+        }
+        "apache_camel" => (format!(":#${{{}}}", name), name),
+        "custom_named" => (format!("__{}__", name), name),
+        _ => ("@@".to_string(), format!("{}", k)), // custom_positional
+    }
+}
+
+fn gen_value(rng: &mut Rng, ph_len: usize) -> Option<Val> {
+    Some(match rng.below(20) {
+        0 | 1 => return None, // absent: the name itself
+        2 => Val::I(rng.below(10) as i32),
+        3 => Val::I([42, -7, 1000000, 0, i32::MIN, i32::MAX][rng.below(6)]),
+        4 => Val::B(rng.chance(1, 2)),
+        5 => Val::S(String::new()),
+        6 => Val::S("a".into()),
+        7 => Val::S("ab"[..ph_len.min(2)].to_string() + &"c".repeat(ph_len.saturating_sub(2))), // same length
+        8 => Val::S("'2020-01-01'".into()),
+        9 => Val::S("(1, 2, 3)".into()),
+        10 => Val::S("a, b".into()),
+        11 => Val::S(" b".into()),
+        12 => Val::S("a ".into()),
+        13 => Val::S("  ".into()),
+        14 => Val::S("1,\n  2".into()),
+        15 => Val::S("\n".into()),
+        16 => Val::S("t -- c\n".into()),
+        17 => Val::S("some_long_identifier_name".into()),
+        18 => {
+            if rng.chance(1, 6) {
+                if rng.chance(1, 2) { Val::F } else { Val::None }
+            } else {
+                Val::S("'it''s'".into())
+            }
+        }
+        _ => Val::S(" ".into()),
+    })
+}
+
+/// Split a base query into crude pieces (words, whitespace runs, single other chars).
+fn pieces(s: &str) -> Vec<String> {
+    let mut out: Vec<String> = vec![];
+    let mut cur = String::new();
+    let mut kind = 0u8;
+    for ch in s.chars() {
+        let k = if ch.is_alphanumeric() || ch == '_' {
+            1
+        } else if ch == ' ' || ch == '\t' {
+            2
+        } else {
+            3
+        };
+        if k != kind || k == 3 {
+            if !cur.is_empty() {
+                out.push(std::mem::take(&mut cur));
+            }
+            kind = k;
+        }
+        cur.push(ch);
+    }
+    if !cur.is_empty() {
+        out.push(cur);
+    }
+    out
+}
+
+const STYLES: &[&str] = &[
+    "colon", "colon_nospaces", "numeric_colon", "pyformat", "dollar", "flyway_var", "question_mark", "numeric_dollar", "percent", "ampersand", "apache_camel",
+    "custom_named", "custom_positional",
+];
+
+fn gen_placeholder(rng: &mut Rng, bases: &[String]) -> Item {
+    let style = STYLES[rng.below(STYLES.len())];
+    let regex = match style {
+        "custom_named" => Some(r"__(?P<param_name>[\w_]+)__".to_string()),
+        "custom_positional" => Some("@@".to_string()),
+        _ => None,
+    };
+    let base = &bases[rng.below(bases.len())];
+    let mut ps = pieces(base);
+    let n = [0, 1, 1, 2, 2, 3, 4][rng.below(7)];
+    let mut vals: Vec<(String, Val)> = vec![];
+    let mut cls = "separate";
+    for k in 1..=n {
+        let (text, key) = placeholder(rng, style, k);
+        if let Some(v) = gen_value(rng, text.len()) {
+            // `param_style` / `param_regex` are configuration keys of the same map: a placeholder of that
+            // name renders as the configured style, but giving it a "value" would change the style itself
+            if !vals.iter().any(|(k2, _)| *k2 == key) && key != "param_style" && key != "param_regex" {
+                vals.push((key, v));
+            }
+        }
+        let words: Vec<usize> = ps.iter().enumerate().filter(|(_, p)| p.chars().next().map(|c| c.is_alphanumeric()).unwrap_or(false)).map(|(i, _)| i).collect();
+        match rng.below(9) {
+            0 if !words.is_empty() => {
+                // glued to an identifier
+                let i = words[rng.below(words.len())];
+                ps[i].push_str(&text);
+                cls = "glued";
+            }
+            1 if !words.is_empty() => {
+                let i = words[rng.below(words.len())];
+                ps[i] = format!("{}{}", text, ps[i]);
+                cls = "glued";
+            }
+            2 => {
+                // inside a quoted string
+                if let Some(i) = ps.iter().position(|p| p == "'") {
+                    ps.insert(i + 1, format!(" {} ", text));
+                } else {
+                    ps.push(format!(" ' {} {} '", text, text));
+                }
+                cls = "in-string";
+            }
+            3 => {
+                ps.insert(0, text);
+                cls = "file-start";
+            }
+            4 => {
+                ps.push(text);
+                cls = "file-end";
+            }
+            5 => {
+                // adjacent placeholders
+                let i = rng.below(ps.len() + 1);
+                let (t2, k2) = placeholder(rng, style, k);
+                let _ = k2;
+                ps.insert(i, format!("{}{}", text, t2));
+                cls = "adjacent";
+            }
+            6 => {
+                // inside a whitespace run
+                if let Some(i) = ps.iter().position(|p| p.starts_with(' ')) {
+                    ps[i] = format!("  {}  ", text);
+                } else {
+                    ps.push(format!("  {}  ", text));
+                }
+                cls = "in-whitespace";
+            }
+            _ if !words.is_empty() => {
+                // replaces a word: a separate token
+                let i = words[rng.below(words.len())];
+                ps[i] = text;
+            }
+            _ => ps.push(format!(" {}", text)),
+        }
+    }
+    let src: String = ps.concat();
+    let dialect = if rng.chance(1, 4) { DIALECTS[rng.below(DIALECTS.len())] } else { "ansi" };
+    Item::Placeholder { cls: format!("{}/{}", style, cls), dialect: dialect.to_string(), style: style.to_string(), regex, src, vals }
+}
+
+/// Synthetic slice lists over a rendered string of words, blanks, commas, quotes and newlines,
+/// cut at arbitrary offsets (so that tokens straddle borders densely).
+fn gen_synthetic(rng: &mut Rng, malformed: bool) -> Item {
+    const TOK: &[&str] = &["ab", "c", " ", "  ", "   ", ",", "'q r'", "\n", "1", "x_y", "(", ")", "=", "\t", "-- k\n", "/* m */"];
+    let ntok = rng.range(1, 14);
+    let mut tpl = String::new();
+    for _ in 0..ntok {
+        let lim = if rng.chance(1, 2) { 6 } else { TOK.len() };
+        tpl.push_str(TOK[rng.below(lim)]);
+    }
+    // cut points
+    let ncut = rng.below(6);
+    let mut cuts: Vec<usize> = (0..ncut).map(|_| rng.below(tpl.len() + 1)).collect();
+    cuts.push(0);
+    cuts.push(tpl.len());
+    cuts.sort();
+    let mut parts: Vec<(String, String, String)> = vec![];
+    let zero = |rng: &mut Rng, parts: &mut Vec<(String, String, String)>| {
+        if rng.chance(1, 4) {
+            let ty = ["templated", "comment", "block_start", "block_end", "literal"][rng.below(5)];
+            let s = ["{{x}}", "{# c #}", "{% if a %}", "", ":p"][rng.below(5)];
+            parts.push((ty.to_string(), if ty == "literal" { String::new() } else { s.to_string() }, String::new()));
+        }
+    };
+    let mut lit_next = rng.chance(1, 2);
+    for w in cuts.windows(2) {
+        zero(rng, &mut parts);
+        let t = &tpl[w[0]..w[1]];
+        if t.is_empty() && rng.chance(1, 2) {
+            continue;
+        }
+        if lit_next {
+            parts.push(("literal".into(), t.to_string(), t.to_string()));
+        } else {
+            let s = ["{{x}}", ":p", "", "{{ a_long_expression }}", "?"][rng.below(5)];
+            let ty = if malformed && rng.chance(1, 3) { ["block_start", "comment", "escaped"][rng.below(3)] } else { "templated" };
+            parts.push((ty.to_string(), s.to_string(), t.to_string()));
+        }
+        lit_next = if rng.chance(1, 5) { lit_next } else { !lit_next };
+    }
+    zero(rng, &mut parts);
+    Item::Synthetic { cls: if malformed { "synthetic-malformed".into() } else { "synthetic".into() }, dialect: "ansi".into(), parts }
+}
+
+fn ph(style: &str, src: &str, vals: &[(&str, Val)]) -> Item {
+    Item::Placeholder {
+        cls: "regression".into(),
+        dialect: "ansi".into(),
+        style: style.into(),
+        regex: None,
+        src: src.into(),
+        vals: vals.iter().map(|(k, v)| (k.to_string(), v.clone())).collect(),
+    }
+}
+
+pub fn main(args: &Args) {
+    silence_panics();
+    if args.extra.iter().any(|a| a == "--legacy") {
+        LEGACY.store(true, std::sync::atomic::Ordering::Relaxed);
+    }
+    let mut out = Out::new(&args.out);
+    let mut rng = Rng::new(args.seed);
+    let mut items: Vec<(Item, u64)> = vec![];
+    if let Some(path) = args.flag("--replay-input") {
+        let v: J = serde_json::from_str(&std::fs::read_to_string(path).unwrap()).unwrap();
+        let v = if v.get("input").is_some() { v["input"].clone() } else { v };
+        items.push((Item::from_json(&v), 1));
+    } else {
+        // regression corpus: the confirmed defects first
+        let reg = vec![
+            ph("colon", "SELECT a FROM t WHERE d > :start_date AND e = 1\n", &[("start_date", Val::S("'2020-01-01'".into()))]),
+            ph("colon", "SELECT ' :x :x ' FROM t", &[("x", Val::I(1))]),
+            ph("colon_nospaces", "SELECT a, b FROM tab:x WHERE c:x = 1", &[]),
+            ph("colon", "ab:x c", &[("x", Val::I(1))]),
+            ph("colon_nospaces", "ab:x cd:x", &[("x", Val::I(1))]),
+            ph("colon", "SELECT a :x", &[("x", Val::S(" b".into()))]),
+            ph("colon", "SELECT :x :y", &[("x", Val::S("a ".into())), ("y", Val::S(" b".into()))]),
+            ph("colon", "a :x :y b", &[("x", Val::S("".into())), ("y", Val::S("".into()))]),
+            ph("colon", "SELECT :x,\n   b  from t\n", &[("x", Val::I(1))]),
+            ph("colon", "SELECT :param_style", &[]),
+            ph("question_mark", "SELECT ?, ? FROM t WHERE a = ?", &[("1", Val::S("'a'".into())), ("3", Val::I(3))]),
+        ];
+        for r in reg {
+            let s = rng.next();
+            items.push((r, s));
+        }
+        let mut bases: Vec<String> = BASES.iter().map(|s| s.to_string()).collect();
+        // some corpus variety: short rule snippets
+        let snippets = rule_snippets();
+        let mut k = 0;
+        for (_, s) in snippets.iter() {
+            if s.len() < 160 && s.is_ascii() && !s.contains('\r') {
+                k += 1;
+                if k % 9 == 0 {
+                    bases.push(s.clone());
+                }
+            }
+        }
+        let (n_ph, n_syn, n_mal) = if args.thorough() { (30000, 30000, 3000) } else { (1800, 2000, 200) };
+        for _ in 0..n_ph {
+            let it = gen_placeholder(&mut rng, &bases);
+            let s = rng.next();
+            items.push((it, s));
+        }
+        for _ in 0..n_syn {
+            let it = gen_synthetic(&mut rng, false);
+            let s = rng.next();
+            items.push((it, s));
+        }
+        for _ in 0..n_mal {
+            let it = gen_synthetic(&mut rng, true);
+            let s = rng.next();
+            items.push((it, s));
+        }
+    }
+    par_run(&mut out, &items, St::default, run_one);
+    out.finish();
 }
